@@ -15,7 +15,8 @@ THEOREMS = [
     "C25.boolean_only_flag",
     "C25.scheduled_exactly_once_on_scheduler",
 ]
-RULE = ("(a) call histories: Disposable with 0..6 dispose() calls and 0..3 re-entrant dispose() calls from inside the action; "
+RULE = ("(a) call histories: Disposable with 0..6 dispose() calls, 0..3 re-entrant dispose() calls from inside the action and an "
+        "action that raises at its first/second invocation; "
         "BooleanDisposable 0..6 calls; ScheduledDisposable histories of dispose/run/runall over a recording queue scheduler, the real "
         "ImmediateScheduler and the real TestScheduler; compared per call: action / wrapped-resource dispose count and is_disposed; "
         "non-trivial = >=2 calls or a re-entrant call, for scheduled >=2 call kinds and the resource disposed. (b) 2-3 real threads "
@@ -34,7 +35,7 @@ def cases(rng, tier):
     n = fw.tier_scale(tier, 150, 1500)
     for _ in range(n):
         yield {"op": "history", "cls": "disposable", "items": 0, "threads": [[["dispose"]] * rng.randrange(0, 7)],
-               "reenter": rng.choice([0, 0, 1, 2, 3])}
+               "reenter": rng.choice([0, 0, 1, 2, 3]), "raises": rng.choice([[], [], [0], [0], [0, 1], [1]])}
     for _ in range(n // 3):
         yield {"op": "history", "cls": "boolean", "items": 0, "threads": [[["dispose"]] * rng.randrange(0, 7)]}
     for _ in range(n * 2):
@@ -71,7 +72,7 @@ def nontrivial(case, out):
     ops = case["threads"][0]
     if case["cls"] == "scheduled":
         return len({o[0] for o in ops}) >= 2 and bool(out) and out[-1][1]["cnt"][0] >= 1
-    return len(ops) >= 2 or (len(ops) >= 1 and case.get("reenter", 0) > 0)
+    return len(ops) >= 2 or (len(ops) >= 1 and (case.get("reenter", 0) > 0 or 0 in case.get("raises", [])))
 
 
 def bucket(case, out):
@@ -81,6 +82,8 @@ def bucket(case, out):
     yield cls if cls != "scheduled" else f"scheduled:{case['sched_kind']}"
     if cls == "disposable" and case.get("reenter") and case["threads"][0]:
         yield "disposable:reentrant"
+    if cls == "disposable" and 0 in case.get("raises", []) and case["threads"][0]:
+        yield "disposable:action-raises" + ("+later-calls" if len(case["threads"][0]) > 1 else "")
     if cls == "scheduled":
         if case.get("falsy"):
             yield "scheduled:falsy-resource"
@@ -110,6 +113,8 @@ SCENARIOS = [
     {"cls": "disposable", "items": 0, "threads": [[D], [D], [D]]},
     {"cls": "disposable", "items": 0, "threads": [[D, D], [D, D]]},
     {"cls": "disposable", "items": 0, "threads": [[D, D], [D], [D]]},
+    {"cls": "disposable", "items": 0, "raises": [0], "threads": [[D, D], [D]]},
+    {"cls": "disposable", "items": 0, "raises": [0, 1], "threads": [[D], [D], [D]]},
     {"cls": "boolean", "items": 0, "threads": [[D], [D]]},
     {"cls": "boolean", "items": 0, "threads": [[D, D], [D], [D]]},
     {"cls": "scheduled", "items": 1, "threads": [[D]], "workers": 1},
@@ -122,7 +127,7 @@ SCENARIOS = [
 def extra(rng, tier):
     parts = [("", dp.thread_check(SCENARIOS, do.c25_threads, tier, accept=True))]
     if tier == "thorough":
-        parts.append(("lines", dp.thread_check(SCENARIOS[:7], do.c25_threads, tier, accept=False, lines=True, bound=2, budget_s=120)))
+        parts.append(("lines", dp.thread_check(SCENARIOS[:9], do.c25_threads, tier, accept=False, lines=True, bound=2, budget_s=120)))
     return dp.merge_extra(parts)
 
 
@@ -133,4 +138,4 @@ LEVEL_TEXT = ("Lean theorems for any number of threads, any number of dispose() 
               "code by differential histories (incl. re-entrant dispose from the action, real Immediate/Test schedulers) and by "
               "enumerated schedules of 2-3 real threads replayed in the model.")
 LEVEL_NOTE = ("The scheduler of ScheduledDisposable is abstract (every scheduled action runs on its own worker at any later time); "
-              "atomicity of lock blocks is assumed (validated by the controller), not proved; an action that raises or blocks is not modelled.")
+              "atomicity of lock blocks is assumed (validated by the controller), not proved; an action that raises is modelled (its k-th invocation may raise; the flag stays set), one that blocks is not.")
